@@ -33,7 +33,9 @@ RULE = (
     "shift first, (c) query, shift, query, shift again: the shifted tree and every inner "
     "node must have the key of the same tree rebuilt from shifted leaves, differ from the "
     "original, and leave all earlier keys unchanged; same for leaves (shift), projections "
-    "(transpose) and wrapped constants (negation). Non-trivial = distinct (family or template, "
+    "(transpose), wrapped constants (negation) and Scalar.set_value (all ordered value "
+    "pairs, key queried before or not, alone and inside 12 compound trees whose key was not "
+    "cached). Non-trivial = distinct (family or template, "
     "variant pair) in which the two recipes differ in exactly one datum"
 )
 ASSUMPTIONS = [
@@ -362,6 +364,41 @@ def _order_leaves(out):
             except Exception as exc:
                 out.violate("order scenario raised", recipe=r, shift=[kind, k], error=repr(exc)[:300])
                 out.ev("VIOLATION:order:leaf")
+    # Scalars: query, set_value, query (alone and inside a compound tree not yet keyed)
+    import operator
+
+    import porepy as pp
+
+    vals = [r[1] for r in fam["scalar"]]
+    partner = ["mdvar", "p", ["sd0", "sd1"], None]
+    fops = {"add": operator.add, "sub": operator.sub, "mul": operator.mul, "div": operator.truediv, "pow": operator.pow, "matmul": operator.matmul}
+    for v1, v2 in itertools.permutations(vals, 2):
+        for queried in (True, False):
+            try:
+                sc = pp.ad.Scalar(v1)
+                k0 = sc._key() if queried else pp.ad.Scalar(v1)._key()
+                trees = {(o, side): (f(sc, build(partner)) if side == "l" else f(build(partner), sc)) for o, f in fops.items() for side in ("l", "r")}
+                sc.set_value(float(v2))
+                fresh = pp.ad.Scalar(v2)
+                what = None
+                if sc._key() != fresh._key() or hash(sc) != hash(fresh):
+                    what = "key of a Scalar after set_value is not the key of a fresh Scalar with that value"
+                elif sc._key() == k0:
+                    what = "key of a Scalar unchanged by set_value to a different value"
+                else:
+                    for (o, side), T in trees.items():
+                        R = fops[o](fresh, build(partner)) if side == "l" else fops[o](build(partner), fresh)
+                        if T._key() != R._key() or hash(T) != hash(R):
+                            what = "compound tree (key not cached before) over a Scalar changed by set_value does not have the key of the tree over a fresh Scalar"
+                            break
+                if what:
+                    out.violate(what, recipe=["scalar", v1], new_value=v2, key_queried_before=queried, observed=sc._key(), expected=fresh._key())
+                    out.ev("VIOLATION:order:set_value")
+                else:
+                    out.ev("order-leaf-ok:set_value", ("sv", v1, v2, queried))
+            except Exception as exc:
+                out.violate("order scenario raised", recipe=["scalar", v1], new_value=v2, error=repr(exc)[:300])
+                out.ev("VIOLATION:order:set_value")
     # Projections: query, transpose, query
     for r in [x for x in fam["projection"] if not x[5]]:
         P = build(r)
